@@ -31,11 +31,12 @@ type Config struct {
 	StopOnViolation bool
 	Workers       int
 	Dedup         bool
+	Race          bool
 }
 
 func DefaultConfig() Config {
 	return Config{MaxSteps: 200000, MaxPaths: 2000000, MaxDepth: 64, MaxAlloc: 1 << 16, MaxThreads: 12,
-		MaxConcretize: 80, MapOrders: true, QueryTimeout: 60000, MaxViolations: 8, Workers: 1, Dedup: true}
+		MaxConcretize: 80, MapOrders: true, QueryTimeout: 60000, MaxViolations: 8, Workers: 1, Dedup: true, Race: true}
 }
 
 type Violation struct {
